@@ -242,6 +242,13 @@ static int spy_setpatch(struct context_data *ctx, int chn, int ins, int smp, int
 	if (HAS_QUIRK(QUIRK_VIRTUAL) && p->virt.maxvoc > p->virt.virt_channels - p->virt.num_tracks)
 		printf("A opok maxvoc %d > background slots %d\n", p->virt.maxvoc,
 		       p->virt.virt_channels - p->virt.num_tracks);
+	{
+		int i, nfree = 0;
+		for (i = 0; i < p->virt.maxvoc; i++)
+			if (p->virt.voice_array[i].chn == -1)
+				nfree++;
+		used0 = nfree;
+	}
 	if (d) {
 		printf("D vop setpatch %d %d %d %d %d %d %d ", chn, ins, smp, key, nna, dct, dca);
 		dump_virt("|", ctx);
@@ -252,7 +259,8 @@ static int spy_setpatch(struct context_data *ctx, int chn, int ins, int smp, int
 	g_stat_reloc += reloc;
 	if (r < 0)
 		g_stat_vfail++;
-	(void)used0;
+	else if (used0 == 0 && (voc0 <= -1 || reloc))
+		g_stat_steal++;	/* no free voice before the call, yet a voice was allocated: stolen */
 	after_vop(ctx, name, d);
 	return r;
 }
@@ -778,6 +786,8 @@ static int run_case(uint64_t cs, int nframes, const char *modname)
 	rate = rates[vrng_below(9)];
 	format = vrng_below(8);
 	voices = vrng_chance(60) ? 128 : (vrng_chance(50) ? vrng_range(1, 8) : vrng_range(9, 64));
+	if ((ctx->m.quirk & QUIRK_VIRTUAL) && vrng_chance(45))
+		voices = vrng_range(1, 6);	/* few voices + NNA: voice stealing and failed allocations */
 	tf_mode = vrng_below(10);	/* 0,1: set a tempo factor right after start; 2: also mid-play */
 	if (voices != 128)
 		xmp_set_player(c, XMP_PLAYER_VOICES, voices);
@@ -924,10 +934,9 @@ static int run_case(uint64_t cs, int nframes, const char *modname)
 static void print_stats(void)
 {
 	printf("N frames %ld\nN ends %ld\nN ctl %ld\nN inject %ld\nN repos %ld\nN rowadv %ld\nN ordadv %ld\nN loopinc %ld\n"
-	       "N tfcalls %ld\nN capped %ld\nN minclamp %ld\nN st26 %ld\nN assume %ld\nN vops %ld\nN vdump %ld\nN reloc %ld\nN vfail %ld\n",
+	       "N tfcalls %ld\nN capped %ld\nN minclamp %ld\nN st26 %ld\nN assume %ld\nN vops %ld\nN vdump %ld\nN reloc %ld\nN vfail %ld\nN steal %ld\n",
 	       g_frames, g_ends, g_ctl, g_inject, g_repos, g_rowadv, g_ordadv, g_loopinc, g_tfcalls, g_capped, g_minclamp,
-	       g_st26, g_assume, g_stat_vops, g_stat_vdump, g_stat_reloc, g_stat_vfail);
-	(void)g_stat_steal;
+	       g_st26, g_assume, g_stat_vops, g_stat_vdump, g_stat_reloc, g_stat_vfail, g_stat_steal);
 }
 
 int main(int argc, char **argv)
